@@ -105,12 +105,44 @@ fn eval_atom(a: &Tri3, r: &Req) -> Tri {
 }
 
 impl Flt {
+    // half of the composite filters are written the way people write them: with only the parentheses the documented precedence
+    // (|| below && below comparisons and calls) requires, e.g. `a == 1 || b == 2 && c == 3`; the others fully parenthesised
     fn text(&self) -> String {
+        let full = self.text_full();
+        if full.len() % 2 == 0 {
+            self.text_min()
+        } else {
+            full
+        }
+    }
+    fn text_full(&self) -> String {
         match self {
             Flt::Atom(s, _) => s.clone(),
-            Flt::And(a, b) => format!("({}) && ({})", a.text(), b.text()),
-            Flt::Or(a, b) => format!("({}) || ({})", a.text(), b.text()),
-            Flt::Not(a) => format!("!({})", a.text()),
+            Flt::And(a, b) => format!("({}) && ({})", a.text_full(), b.text_full()),
+            Flt::Or(a, b) => format!("({}) || ({})", a.text_full(), b.text_full()),
+            Flt::Not(a) => format!("!({})", a.text_full()),
+        }
+    }
+    fn text_min(&self) -> String {
+        let paren = |s: String| format!("({})", s);
+        match self {
+            Flt::Atom(s, _) => {
+                if ["||", "&&", "?", " or ", " and ", " if ", "let "].iter().any(|w| s.contains(w)) {
+                    paren(s.clone())
+                } else {
+                    s.clone()
+                }
+            }
+            Flt::And(a, b) => {
+                let l = if matches!(**a, Flt::Or(..)) { paren(a.text_min()) } else { a.text_min() };
+                let r = if matches!(**b, Flt::Or(..) | Flt::And(..)) { paren(b.text_min()) } else { b.text_min() };
+                format!("{} && {}", l, r)
+            }
+            Flt::Or(a, b) => {
+                let r = if matches!(**b, Flt::Or(..)) { paren(b.text_min()) } else { b.text_min() };
+                format!("{} || {}", a.text_min(), r)
+            }
+            Flt::Not(a) => format!("!({})", a.text_min()),
         }
     }
     fn eval(&self, r: &Req) -> Tri {
